@@ -1,6 +1,6 @@
 (* Towards "gen only produces well-formed types" (the hypothesis wf_ty of C19_total): the validators the
    generator attaches to a field always fit the shape of that field's type. *)
-From GJS Require Import Base Bounds IntSize Regex Schema GoType Gen Exec ExecP WfP GenP.
+From GJS Require Import Base Bounds IntSize Regex Schema GoType Ident Gen Exec ExecP WfP GenP NamesP.
 
 Section GenWf.
 Variable env : list (str * gty).
@@ -420,4 +420,52 @@ Proof.
   intros Hg Hd Hr. destruct (gen_file_wf _ _ _ _ _ _ Hg Hd Hr) as [He Hrt]. split.
   - intros rt E f j. apply dec_never_panics; [exact He|exact (Hrt rt E)].
   - intros d u E f j. apply dec_never_panics; [exact He|exact (He d u E)].
+Qed.
+
+(* ---------- the names part of the residue: the fields of a generated struct have distinct non-empty names ---------- *)
+Lemma assign_fields_nonempty ids : forall seen, Forall (fun s : str => s <> []) ids -> Forall (fun s : str => s <> []) (assign_fields ids seen).
+Proof.
+  induction ids as [|id rest IH]; intros seen H; cbn [assign_fields]; [constructor|].
+  inversion H as [|? ? Hid Hrest]; subst. destruct (count_of id seen).
+  - constructor; [|exact (IH _ Hrest)]. unfold suffixed. destruct id; [contradiction|discriminate].
+  - constructor; [exact Hid|exact (IH _ Hrest)].
+Qed.
+
+Lemma names_ok_of_nodup fs : NoDup (map f_name fs) -> Forall (fun s : str => s <> []) (map f_name fs) -> names_ok fs = true.
+Proof.
+  induction fs as [|f r IH]; intros ND NE; [reflexivity|]. cbn [map] in *. inversion ND as [|? ? Hn ND']; subst. inversion NE as [|? ? He NE']; subst.
+  cbn [names_ok]. rewrite (IH ND' NE'), andb_true_r. apply andb_true_iff. split.
+  - destruct (f_name f); [contradiction|reflexivity].
+  - apply negb_true_iff. destruct (mem (f_name f) (map f_name r)) eqn:E; [|reflexivity]. apply mem_In in E. contradiction.
+Qed.
+
+Lemma make_field_name defs c self fname k p ty bp : f_name (fst (fst (make_field defs c self fname k p ty bp))) = fname.
+Proof.
+  unfold make_field. destruct (c_default (s_con p)); [reflexivity|]. destruct (mem k (c_required c)); [reflexivity|].
+  destruct (nillable_ty (ref_nillable defs self) ty); reflexivity.
+Qed.
+
+Lemma infos_names defs rec c self scope : forall nps infos,
+  rmap (gen_field defs rec c self scope) nps = Done infos ->
+  map (fun i : finfo => f_name (fst (fst i))) infos = map fst nps.
+Proof.
+  intros nps infos H. apply rmap_Done in H. induction H as [|np i l1 l2 Hnp _ IH]; [reflexivity|].
+  cbn [map]. rewrite IH. f_equal. destruct np as [fname [k p]]. unfold gen_field in Hnp. apply rbind_Done in Hnp.
+  destruct Hnp as [[ty bp] [_ Hi]]. inversion Hi; subst. apply make_field_name.
+Qed.
+
+Lemma combine_fst {A B} (l1 : list A) (l2 : list B) : length l1 = length l2 -> map fst (combine l1 l2) = l1.
+Proof. revert l2. induction l1 as [|a r IH]; intros [|b s] H; try discriminate; [reflexivity|]. cbn. f_equal. apply IH. inversion H; reflexivity. Qed.
+
+(* without an additional-properties field: names_ok as soon as the identifiers are non-empty and free of underscores *)
+Theorem struct_names_ok idf defs rec c self scope props infos :
+  Forall no_us (map (fun kp : str * schema => idf (fst kp)) (sort_props props)) ->
+  Forall (fun s : str => s <> []) (map (fun kp : str * schema => idf (fst kp)) (sort_props props)) ->
+  rmap (gen_field defs rec c self scope) (prop_names idf props) = Done infos ->
+  names_ok (map (fun i : finfo => fst (fst i)) infos) = true.
+Proof.
+  intros Hus Hne H. apply names_ok_of_nodup; rewrite map_map, (infos_names _ _ _ _ _ _ _ H); unfold prop_names;
+    rewrite combine_fst by (rewrite field_names_length, map_length; reflexivity).
+  - exact (field_names_distinct _ Hus).
+  - exact (assign_fields_nonempty _ [] Hne).
 Qed.
